@@ -614,9 +614,11 @@ package corerad
 //@   opt safety [C17]
 //@   opt frame [C17]
 
+// errorf: every scrape error is attributed to a const metric (metricslite
+// panics on a ScrapeError naming any other metric).
 //@ func (*Metrics).constScrape$1
-//@   ensures E1: result != nil
-//@   opt trusted builds a ScrapeError value from a format string
+//@   assigns new heap(metricslite.ScrapeError)
+//@   ensures E1 [C17]: result != nil && fresh(result) && result.Metric == "corerad_interface_forwarding"
 
 //@ iface system.State.IPv6Autoconf2(self, iface) (v, err)
 
@@ -627,6 +629,7 @@ package corerad
 //@   requires P2: forall(i, 0, len(m.ifis), ifiCfgOK(m.ifis[i]))
 //@   assigns new heap(ndp.RouterAdvertisement), new mem(ndp.Option), new heap(ndp.PrefixInformation), new heap(ndp.RouteInformation), new heap(ndp.RecursiveDNSServer), new heap(ndp.DNSSearchList), new heap(ndp.MTU), new heap(ndp.LinkLayerAddress), new mem(netip.Addr), new mem(netip.Prefix), new mem(system.IP), new mem(system.Route), new mem(config.Misconfiguration), new mem(*ndp.DNSSearchList), new mem(*ndp.PrefixInformation), new mem(*ndp.RecursiveDNSServer), new mem(*ndp.RouteInformation), ghost.clockRead, ghost.now, ghost.lastAddrs, ghost.lastRoutes, ghost.fwdVal, ghost.fwdName, ghost.fwdFresh, ghost.samples
 //@   loop 1 invariant L1 [C17,C04]: 0 <= rangeindex + 1 && rangeindex + 1 <= len(m.ifis) && m.state != nil && metrics != nil && forall(k, "Int", has(metrics, k) ==> knownConstMetric(k) && metrics[k] != nil) && forall(i, 0, len(m.ifis), ifiCfgOK(m.ifis[i]))
+//@   ensures E9 [C17]: result != nil ==> isType(result, "*metricslite.ScrapeError") && knownConstMetric(as(result, "*metricslite.ScrapeError").Metric)
 //@   at call collectMetrics(cm, cctx): assert S1 [C17,C04]: cctx.Interface == ifi.Name && cctx.Advertising == ifi.Advertise && cctx.Monitoring == ifi.Monitor && cctx.Autoconfiguration == auto && cctx.Forwarding == fwd && (ifi.Advertise ==> cctx.Advertisement != nil && fwd == ghost.fwdVal && ghost.fwdName == ifi.Name && cctx.Advertisement.RouterLifetime == ite(fwd, ifi.DefaultLifetime, 0) && raHeaderFrom(cctx.Advertisement, ifi) && len(cctx.Misconfigurations) == b2i(!fwd && ifi.DefaultLifetime > 0)) && (!ifi.Advertise ==> cctx.Advertisement == nil && len(cctx.Misconfigurations) == 0)
 //@   opt safety [C17]
 //@   opt frame [C17]
